@@ -36,9 +36,11 @@ Lemma H7_ranks : forall b, In b H7 -> (rank6 (bs_root b) < 5)%nat.
 Proof. intros b Hb. unfold H7 in Hb. cbn [In] in Hb. repeat (destruct Hb as [Hb|Hb]; [subst b; cbn [bs_root]; vm_compute; lia|]). destruct Hb. Qed.
 
 (* the theorem applies ... *)
-Example history7_clean : vals7 = map (fun b => cv R7 (bs_env b) mixF 5 (bs_root b)) H7 /\ HInv R7 mixF end7.
+(* the table of rules by key and signature: the rule table is not edited in this history *)
+Definition RT7 : key -> N -> rule := fixedR R7.
+Example history7_clean : vals7 = map (fun b => cv R7 (bs_env b) mixF 5 (bs_root b)) H7 /\ HInv mixF RT7 end7.
 Proof.
-  pose proof (history_values_clean R7 mixF rank6 ord6 all_sync R7_ranked R7_wfdisc ord6_ok 5 H7 init_istate end7 vals7 (HInv_init R7 mixF)) as H.
+  pose proof (history_values_clean R7 mixF rank6 RT7 ord6 all_sync R7_ranked R7_wfdisc (fixedR_ok R7) ord6_ok 5 H7 init_istate end7 vals7 (HInv_init mixF RT7)) as H.
   specialize (H run7_eq). specialize (H H7_ranks). exact H.
 Qed.
 
@@ -52,3 +54,46 @@ Example history7_computed :
    let s3 := final_state (fst (ibuild R7 E7b mixF ord6 all_sync 200 200 s2 5 [])) in
    creates (is_log s1) = 6%nat /\ creates (is_log s2) = 6%nat /\ (creates (is_log s2) < creates (is_log s3))%nat).
 Proof. vm_compute. repeat split; try reflexivity. all: lia. Qed.
+
+(* ---------- a history with rule edits: rule 4 is replaced by a rule with another signature and fewer inputs, later restored ---------- *)
+Definition T7b : list (key * rule) :=
+  [(0, mkRule 0 true [] [] [] None []); (1, mkRule 0 true [] [] [] None []);
+   (2, mkRule 1 false [0; 1] [] [] None []);
+   (3, mkRule 1 false [2] [] [1] (Some (0%nat, [0], [1])) [0]);
+   (4, mkRule 9 false [3] [] [] None []);
+   (5, mkRule 3 false [4] [] [] None [0])].
+Definition R7b : key -> rule := rules_of T7b.
+Definition R78 : key -> N -> rule := fun k sg => if N.eqb sg (r_sig (R7b k)) then R7b k else R7 k.
+Example R7b_ranked : wf_rank R7b rank6. Proof. apply (wf_rank_b_sound T7b rank6). vm_compute. reflexivity. Qed.
+Example R7b_wfdisc : wf_disc R7b. Proof. apply wf_disc_b_sound. vm_compute. reflexivity. Qed.
+Example R78_ok_b : table_ok R7b R78. Proof. intros k. unfold R78. now rewrite N.eqb_refl. Qed.
+Example R78_ok : table_ok R7 R78.
+Proof.
+  intros k. unfold R78. destruct (N.eqb (r_sig (R7 k)) (r_sig (R7b k))) eqn:E; auto.
+  unfold R7, R7b, R6, T7b, rules_of in *. cbn [alookup] in *.
+  repeat (match goal with |- context [N.eqb k ?c] => destruct (N.eqb k c) eqn:? end; try reflexivity); discriminate.
+Qed.
+Definition H78 : list rbspec :=
+  [mkRb R7 rank6 (mkBspec E7a 5 [] 200 200); mkRb R7b rank6 (mkBspec E7a 5 [] 200 200); mkRb R7b rank6 (mkBspec E7b 5 [] 200 200);
+   mkRb R7 rank6 (mkBspec E7b 5 [] 200 200)].
+Definition res78 := run_rbuilds mixF ord6 all_sync init_istate H78.
+Definition end78 : istate := match res78 with Some (s, _) => s | None => init_istate end.
+Definition vals78 : list (option value) := match res78 with Some (_, v) => v | None => [] end.
+Lemma run78_eq : run_rbuilds mixF ord6 all_sync init_istate H78 = Some (end78, vals78).
+Proof. vm_compute. reflexivity. Qed.
+Lemma H78_ok : forall rb, In rb H78 -> rb_ok R78 5 rb.
+Proof.
+  intros rb Hb. unfold H78 in Hb. cbn [In] in Hb.
+  destruct Hb as [Hb|[Hb|[Hb|[Hb|[]]]]]; subst rb; unfold rb_ok; cbn [rb_rules rb_rank rb_build bs_root];
+    (split; [first [exact R7_ranked|exact R7b_ranked]|split; [first [exact R7_wfdisc|exact R7b_wfdisc]|split; [first [exact R78_ok|exact R78_ok_b]|vm_compute; lia]]]).
+Qed.
+Example history78_clean : vals78 = map (fun rb => cv (rb_rules rb) (bs_env (rb_build rb)) mixF 5 (bs_root (rb_build rb))) H78 /\ HInv mixF R78 end78.
+Proof.
+  pose proof (rhistory_values_clean mixF R78 ord6 all_sync ord6_ok 5 H78 init_istate end78 vals78 H78_ok (HInv_init mixF R78)) as H.
+  specialize (H run78_eq). exact H.
+Qed.
+(* the edit changes the value of key 5; restoring the rule restores it *)
+Example history78_computed :
+  vals78 = map (fun rb => cv (rb_rules rb) (bs_env (rb_build rb)) mixF 5 (bs_root (rb_build rb))) H78 /\
+  nth 0 vals78 None <> nth 1 vals78 None /\ ~ In None vals78.
+Proof. vm_compute. repeat split; try reflexivity; try discriminate. intros H. repeat (destruct H as [H|H]; [discriminate|]). destruct H. Qed.
